@@ -1,7 +1,7 @@
 """C15 — gradients through TT operations match the dense derivative (autograd model, DESIGN 4 C15)."""
 
 EXPRS = ['full', 'add', 'sub_mul', 'scalar_ops', 'neg_kron', 'sum_all', 'sum_index', 'dot', 'dot_sq', 'norm_sq', 'norm', 'matvec', 'matmat', 'bilinear',
-         'getitem', 'apply_mask', 'cat', 'pad', 'diag', 'mprod', 'depth3', 'scale_by_dot', 'scale_by_sum']
+         'getitem', 'apply_mask', 'cat', 'pad', 'diag', 'mprod', 'depth3', 'scale_by_dot', 'scale_by_sum', 'add_tracked_scalar', 'copy_forms']
 
 
 def cases(tier, seed):
@@ -16,7 +16,7 @@ def cases(tier, seed):
             if e in ('matmat',) and d > 2 and not th:
                 continue
             base = {'N': N, 'R': R, 'R2': R2, 'RA': [1] + [2] * (d - 1) + [1], 'expr': e}
-            uses_y = e in ('add', 'sub_mul', 'neg_kron', 'sum_all', 'dot', 'dot_sq', 'norm', 'bilinear', 'cat', 'depth3', 'scale_by_dot', 'scale_by_sum')
+            uses_y = e in ('add', 'sub_mul', 'neg_kron', 'sum_all', 'dot', 'dot_sq', 'norm', 'bilinear', 'cat', 'depth3', 'scale_by_dot', 'scale_by_sum', 'add_tracked_scalar', 'copy_forms')
             uses_A = e in ('matvec', 'matmat', 'bilinear')
             # which operands / cores are tracked
             variants = [({'x': None}, 'grad')]
